@@ -295,9 +295,19 @@ pub fn run(ctx: &Ctx) {
     ctx.subspace("proptest histories up to length 60 (3 peers, time steps around the claim timeout, disconnects)", n as u64, false);
 
     crate::props::node_level::c12_node(ctx);
+
+    // coverage-guided search over the same histories (libFuzzer target hist_c12: bytes -> operations -> this oracle);
+    // the committed corpus is replayed in-process in every tier, the campaign runs in the thorough tier
+    crate::targets::replay_corpus(ctx, "hist_c12");
+    if std::env::var("VCHECK_FUZZ").is_ok() && !ctx.quick() {
+        crate::fuzzdrv::run_campaign_par(ctx, "hist_c12", 3200000, 16, 128);
+    }
 }
 
 pub fn replay(ctx: &Ctx, case: &Value) {
+    if crate::fuzzdrv::replay(ctx, case) {
+        return;
+    }
     match case["kind"].as_str() {
         Some("announce") => {
             if let Ok(c) = serde_json::from_value::<Case>(case["case"].clone()) {
